@@ -17,6 +17,7 @@
 import PyroModel.Pool
 import PyroProofs.Lock
 import PyroProofs.Pool
+import PyroProofs.PoolProbe
 import PyroModel.Gen.C18
 
 namespace Pyro.C18
@@ -26,53 +27,48 @@ open Pyro Pyro.Lock Pyro.Pool
 /-! ### obligations on facts extracted from the current source -/
 
 /-- **C18_gen_shape_ok.**  In the current source `Pool.process`, `Pool.notify_done` and `Pool.close`
-    touch `self.idle`, `self.busy`, `self.closed`, `self.num_workers()` only inside
-    `with self.count_lock:` (0 accesses outside, and they do access them inside), the lock is a
-    plain `threading.Lock`, nothing inside the lock can block (no join / wait / sleep / acquire),
-    every `join` in `close` has a timeout, no other class of the module touches the pool's sets, flag,
-    lock or a worker's event, and the configured default sizes satisfy `1 ≤ min ≤ max`. -/
+    (with the helper methods of `Pool` they call expanded at the call site) touch `self.idle`, `self.busy`,
+    `self.closed` only inside `with self.count_lock:` (0 accesses outside, and they do access them inside);
+    while the real methods were executed on every small pool state no access happened without the lock held;
+    the lock is a plain `threading.Lock`; nothing inside the lock can block (no join / wait / sleep / acquire,
+    lexically or observed); every `join` that `close` performed had a timeout; no other class of the module
+    touches the pool's sets, flag, lock or a worker's event; the default sizes satisfy `1 ≤ min ≤ max`. -/
 theorem C18_gen_shape_ok :
     (∀ m ∈ Pyro.Gen.C18.poolShape, m.2.2 = 0 ∧ 0 < m.2.1) ∧
     Pyro.Gen.C18.poolShape.map (·.1) = ["process", "notify_done", "close"] ∧
+    Pyro.Gen.C18.unlockedAccesses = 0 ∧
     Pyro.Gen.C18.lockKind = "Lock" ∧
     Pyro.Gen.C18.blockingInsideLock = 0 ∧
     Pyro.Gen.C18.untimedJoins = 0 ∧
     Pyro.Gen.C18.foreignAccesses = 0 ∧
     1 ≤ Pyro.Gen.C18.defaultMin ∧ Pyro.Gen.C18.defaultMin ≤ Pyro.Gen.C18.defaultMax := by decide
 
-/-- **C18_gen_source.**  The statement skeletons of `Worker.process`, `Worker.run`, `Pool.__init__`,
-    `Pool.num_workers`, `Pool.process`, `Pool.notify_done` and `Pool.close` in the current source are
-    exactly the ones the model was written from (PyroModel/Pool.lean follows them line by line): any
-    edit of these methods — a reordered statement, a dropped `clear()`, a changed comparison —
-    breaks this obligation. -/
+/-- **C18_gen_source.**  The statement skeletons of `Worker.process` and `Worker.run` in the current source are
+    exactly the ones the model's `wstep` / `signal` follow.  These two stay syntactic on purpose: what matters
+    is the ORDER of `wait / clear / test the slot / call / empty the slot / notify_done` and of
+    `store the job / set the event`, which no sequential probe can observe. -/
 theorem C18_gen_source :
     Pyro.Gen.C18.workerProcess = ["self.job = job", "self.job_available.set()"] ∧
     Pyro.Gen.C18.workerRun =
       ["while True:", " self.job_available.wait()", " self.job_available.clear()", " if self.job is None:",
        "  break", " try:", "  self.job()", " except Exception:", " self.job = None",
-       " self.pool.notify_done(self)", "self.pool = None"] ∧
-    Pyro.Gen.C18.poolInit =
-      ["if config.THREADPOOL_SIZE < 1 or config.THREADPOOL_SIZE_MIN < 1:", " raise ValueError",
-       "if config.THREADPOOL_SIZE_MIN > config.THREADPOOL_SIZE:", " raise ValueError",
-       "self.idle = set()", "self.busy = set()", "self.closed = False", "self.count_lock = threading.Lock()",
-       "for _ in range(config.THREADPOOL_SIZE_MIN):", " worker = Worker(self)", " self.idle.add(worker)",
-       " worker.start()"] ∧
-    Pyro.Gen.C18.poolNumWorkers = ["return len(self.busy) + len(self.idle)"] ∧
-    Pyro.Gen.C18.poolProcess =
-      ["with self.count_lock:", " if self.closed:", "  raise PoolError", " if self.idle:",
-       "  worker = self.idle.pop()", " else:", "  if self.num_workers() < config.THREADPOOL_SIZE:",
-       "   worker = Worker(self)", "   worker.start()", "  else:", "   raise NoFreeWorkersError",
-       " self.busy.add(worker)", " worker.process(job)"] ∧
-    Pyro.Gen.C18.poolNotifyDone =
-      ["with self.count_lock:", " if worker in self.busy:", "  self.busy.remove(worker)", " if self.closed:",
-       "  worker.process(None)", "  return", " if len(self.idle) >= config.THREADPOOL_SIZE_MIN:",
-       "  worker.process(None)", " else:", "  self.idle.add(worker)"] ∧
-    Pyro.Gen.C18.poolClose =
-      ["with self.count_lock:", " if self.closed:", "  return", " self.closed = True",
-       " idle, self.idle = (self.idle, set())", " busy, self.busy = (self.busy, set())", " for w in idle:",
-       "  w.process(None)", "time.sleep(0.1)", "current_thread = threading.current_thread()", "while idle:",
-       " p = idle.pop()", " if p is not current_thread:", "  p.join(timeout=0.1)", "while busy:",
-       " p = busy.pop()", " if p is not current_thread:", "  p.join(timeout=0.1)"] := by decide
+       " self.pool.notify_done(self)", "self.pool = None"] := by decide
+
+/-- **C18_gen_behaviour.**  The real `Pool.__init__`, `Pool.process`, `Pool.notify_done` and `Pool.close` were
+    *called* (no thread started) on every small pool state — sizes min 1..2, max min..min+1, open / closed,
+    0..2 idle and 0..2 busy workers, every worker as argument of `notify_done`, and `process` once more with a
+    failing `Thread.start()` — and on every row the model's atomic method (`Pool.call`) has exactly the observed
+    effect on `idle`, `busy`, `closed`, every worker's job slot and event, and raises / returns the same; `Pool()`
+    builds `min` idle workers after creating the lock and refuses sizes outside `1 ≤ min ≤ max`; a failing
+    `Thread.start()` comes out of `process` as RuntimeError and leaves the pool untouched.  How the methods are
+    spelled (helpers, early returns, locals, constants) is irrelevant to this obligation. -/
+theorem C18_gen_behaviour :
+    (Pyro.Gen.C18.initTable.all checkInit = true ∧ Pyro.Gen.C18.initTable.length = 16) ∧
+    (Pyro.Gen.C18.processTable.all (checkRow 0) = true ∧ Pyro.Gen.C18.processTable.length = 72) ∧
+    (Pyro.Gen.C18.startFailTable.all checkStartFail = true ∧ Pyro.Gen.C18.startFailTable.length = 72) ∧
+    (Pyro.Gen.C18.notifyTable.all (checkRow 1) = true ∧ 72 ≤ Pyro.Gen.C18.notifyTable.length) ∧
+    (Pyro.Gen.C18.closeTable.all (checkRow 2) = true ∧ Pyro.Gen.C18.closeTable.length = 72) := by
+  decide +kernel
 
 /-! ### the pool methods are atomic under every schedule -/
 
